@@ -124,6 +124,7 @@ struct LaunchPlan {
   int kind = LK_Child;
   std::string spec;
   bool ownDelegate = true, canInt = true, inherit = true, control = true;
+  bool console = false;   // connectToConsole: the child keeps the parent's process group and its output is not captured
   std::vector<std::pair<std::string, std::string>> env;
   int exitCode = 0;
   int sig = 0;
@@ -337,6 +338,7 @@ struct Case {
     ProcessAttributes attr = {p.canInt};
     attr.inheritEnvironment = p.inherit;
     attr.controlEnabled = p.control;
+    attr.connectToConsole = p.console;
     Case* self = this;
     ProcessCompletionFn fn = [self, l](ProcessResult r) { self->onCompletion(l, r); };
     log.add(E_XCALL, p.job, l);
@@ -953,9 +955,15 @@ struct Gen {
       L.hang = true; L.needsKill = true; L.cls = released ? "released-not-interruptible-hang" : "not-interruptible-hang";
     } else if (r < 8) {
       L.canInt = true;
+      if (rng.chance(1, 4)) {   // connected to the console: silent (its output would land in the harness's own stdout), same process group as the harness
+        L.console = true; L.control = false;
+        s += "h";
+        L.hang = true; L.cls = "console-hang";
+      } else {
       s += volumeOps(L, rng.chance(1, 3) ? 4096 : (uint64_t)rng.below(50));
       s += "h";
       L.hang = true; L.cls = "hang";
+      }
     } else {
       L.canInt = true;
       s += volumeOps(L, (uint64_t)rng.below(50));
@@ -1150,6 +1158,19 @@ static void generate(CasePlan& P, const std::string& profile, uint64_t seed, int
     P.early = rng.chance(1, 2);
     if (P.early)
       for (auto& L : P.launches) L.slowFinishUs = 500 + (int)rng.below(3000);
+    // the completion of a released-lane child submits a follow-up job; with E the queue is already being destroyed then, and the
+    // job still has to run before the destructor returns
+    for (auto& L : P.launches)
+      if (rng.chance(1, 3)) {
+        JobPlan j;
+        j.id = (int)P.jobs.size();
+        j.name = "post" + num(L.id);
+        j.viaCompletion = true;
+        j.high = rng.chance(1, 2);
+        j.parent = L.job;
+        P.jobs.push_back(j);
+        L.complJob = j.id;
+      }
     P.flags = "release";
     return;
   }
